@@ -30,7 +30,7 @@ pub struct C01;
 #[derive(Serialize, Deserialize, Clone, Debug)]
 pub struct Req {
     pub method: String,
-    /// "/ok" "/echo" "/empty" "/big" "/huge" "/panic" "/cors/x" "/nope"
+    /// "/ok" "/echo" "/empty" "/big" "/huge" "/slow" "/panic" "/cors/x" "/nope"
     pub path: String,
     #[serde(default)]
     pub query: String,
@@ -190,6 +190,7 @@ pub fn route_model(r: &Req) -> (u16, Vec<u8>, bool, bool) {
         "/empty" => (200, Vec::new(), true, false),
         "/big" => (200, big_body(), true, false),
         "/huge" => (200, huge_body(), true, false),
+        "/slow" => (200, b"slow-body".to_vec(), true, false),
         "/panic" => (200, Vec::new(), true, false),
         p if p.starts_with("/cors/") => (200, b"cors-body".to_vec(), true, true),
         _ => (404, b"<html><body><h1>404 Not Found</h1></body></html>".to_vec(), false, false),
@@ -304,6 +305,11 @@ pub fn build_app(threads: usize, timeout_ms: Option<u64>, cors: &str) -> (App<HS
         .with_route("/huge", |req: Request, st: Arc<HState>| {
             note(&req, &st);
             Response::new(StatusCode::OK, huge_body())
+        })
+        .with_route("/slow", |req: Request, st: Arc<HState>| {
+            note(&req, &st);
+            humsim::thread::sleep(Duration::from_millis(30));
+            Response::new(StatusCode::OK, "slow-body")
         })
         .with_route("/big", |req: Request, st: Arc<HState>| {
             note(&req, &st);
@@ -783,8 +789,15 @@ fn gen_req(rng: &mut Rng, last: bool, allow_special: bool) -> Req {
         path = "/panic".into();
     }
     // (a separate draw, so that the other dimensions keep their values)
-    if Rng::new(humsim::rng::mix(&[rng.next_u64(), 0xC01_0002])).chance(1, 16) && path != "/panic" {
-        path = "/huge".into();
+    {
+        let mut r2 = Rng::new(humsim::rng::mix(&[rng.next_u64(), 0xC01_0002]));
+        if r2.chance(1, 16) && path != "/panic" {
+            path = "/huge".into();
+        } else if r2.chance(1, 12) && path != "/panic" {
+            // a handler that takes 30 virtual ms: responses to pipelined requests must still
+            // come back in request order
+            path = "/slow".into();
+        }
     }
     let conn = if last && rng.chance(1, 2) {
         match rng.below(3) {
@@ -912,7 +925,7 @@ impl Prop for C01 {
         }
     }
     fn rule(&self) -> &'static str {
-        "One case = a generated application configuration (pool 1..4 threads, connection timeout none / 1..30 s, CORS wildcard / list / list whose entries are substrings of earlier ones / none) plus 1..4 (thorough 1..8) client scripts of 1..6 requests over 5 methods x 8 targets (bodies of 0, 7, 9, 20 000 and 150 000 bytes, an echo, a panicking handler, an unrouted path) x 2 versions x Connection variants x bodies 0..9000 bytes x malformed kinds x idle gaps, an explicit segmentation (cut offsets + inter-segment gap) of the client byte stream, lock-step or streamed pacing, an ending (close / half-close / wait / RST) optional truncation of the last request, and for one client in three a follow-up connection with one plain request after the first connection has ended, all under one seeded schedule and seeded network knobs (short reads/writes, default segmentation, tiny windows, latency). Distinct = distinct history shape: per client the sequence of (method, target kind, well-formedness, pacing, number of segments, statuses received, how the connection ended). Non-trivial = at least two requests on one connection or two overlapping connections, and at least one cut inside a request."
+        "One case = a generated application configuration (pool 1..4 threads, connection timeout none / 1..30 s, CORS wildcard / list / list whose entries are substrings of earlier ones / none) plus 1..4 (thorough 1..8) client scripts of 1..6 requests over 5 methods x 9 targets (bodies of 0, 7, 9, 20 000 and 150 000 bytes, an echo, a handler that takes 30 virtual ms, a panicking handler, an unrouted path) x 2 versions x Connection variants x bodies 0..9000 bytes x malformed kinds x idle gaps, an explicit segmentation (cut offsets + inter-segment gap) of the client byte stream, lock-step or streamed pacing, an ending (close / half-close / wait / RST) optional truncation of the last request, and for one client in three a follow-up connection with one plain request after the first connection has ended, all under one seeded schedule and seeded network knobs (short reads/writes, default segmentation, tiny windows, latency). Distinct = distinct history shape: per client the sequence of (method, target kind, well-formedness, pacing, number of segments, statuses received, how the connection ended). Non-trivial = at least two requests on one connection or two overlapping connections, and at least one cut inside a request."
     }
     fn assumptions(&self) -> Vec<String> {
         vec![
